@@ -101,6 +101,16 @@ def run(ctx: Ctx):
         vs = [["-O1"], ["-O3"]] + (rng.sample(allv[3:], 1) if quick else rng.sample(allv[3:], 8))
         variants = [("O0", src, args + ["-O0", "-findirect-start-ptr"])] + [("v", src, args + v + ["-findirect-start-ptr"]) for v in vs]
         cases.append(diff.Case(b, variants, seeds=seeds + work.CORPUS_SEEDS.get(b, [])))
+    # byte ranges touching 0x00 / 0xff and of lengths around the collapse threshold (range collapsing is where the byte tests change shape)
+    for i in range(6 if quick else 40):
+        lo = rng.choice([0x00, 0x20, 0x41, 0x7f, 0x80, 0xc0, 0xf0, 0xfa])
+        hi = min(255, lo + rng.choice([2, 3, 4, 5, 6, 40, 255]))
+        if rng.random() < 0.5:
+            hi = 255
+        src = "hook h0;\nhook h1;\nparser {\n loop {\n  case {\n   b/[%02x-%02x]/ -> {\n    h0();\n   }\n   else -> {\n    h1();\n    /./;\n   }\n  }\n }\n}\n" % (lo, hi)
+        vs = [["-O2"], ["-O3"], ["-O2", "--collapsed-range-length", str(rng.choice([1, 2, 3, 5]))]]
+        cases.append(diff.Case("ranges", [("O0", src, ["-O0", "-findirect-start-ptr"])] + [("v", src, v + ["-findirect-start-ptr"]) for v in vs],
+                               seeds=[bytes([lo, hi, max(0, lo - 1), min(255, hi + 1), (lo + hi) // 2]), bytes(range(max(0, lo - 2), min(256, lo + 3))), bytes(range(max(0, hi - 2), min(256, hi + 3)))]))
     ctx.cov.update({"programs_generated": st["generated"] + st2["generated"], "programs_accepted": len(pool) + len(ypool)})
     used = {}
     for c in cases:
